@@ -22,7 +22,10 @@ def mappingListToJson (ms : List Mapping) : Json := Json.arr (ms.map Driver.mapp
   {"base": set of matches, "relabelled": set of matches of the relabelled pair} (both canonically sorted);
 * `rinv.prune` {keep, group, matches, max_group} → pruned list of matches, in order;
 * `rinv.prune_spec` {keep, group, matches, kept} → Bool (`pruneSpecB`: kept is a sub-list of the raw matches and
-  every raw match is kept or related to a kept one by rule automorphisms). -/
+  every raw match is kept or related to a kept one by rule automorphisms);
+* `rinv.prune_partial` {keep, group, matches, max_group} → {"status": "ok", "kept": [...]} | {"status": "KeyError"} |
+  {"status": "ValueError"} (`pruneWithCap`: `_prune_by_rule_automorphisms` followed literally; the matches may be
+  partial, i.e. lack pattern nodes; `keep` is a set: duplicate-free). -/
 def handle : Driver.Handler := fun cmd j =>
   match cmd with
   | "rinv.subpattern" => some do
@@ -56,6 +59,15 @@ def handle : Driver.Handler := fun cmd j =>
     let raw ← getMappings j "matches"
     let kept ← getMappings j "kept"
     pure (toJson (pruneSpecB keep group raw kept))
+  | "rinv.prune_partial" => some do
+    let keep ← getNatList j "keep"
+    let group ← getMappings j "group"
+    let ms ← getMappings j "matches"
+    let mg ← Driver.getNat j "max_group"
+    pure (match pruneWithCap mg keep group ms with
+      | .ok kept => Json.mkObj [("status", toJson "ok"), ("kept", mappingListToJson kept)]
+      | .keyError => Json.mkObj [("status", toJson "KeyError")]
+      | .valueError => Json.mkObj [("status", toJson "ValueError")])
   | _ => none
 
 end Driver.ReactorInv
